@@ -579,8 +579,22 @@ func runC09(c *Ctx, r *Report) {
 				}
 				return false
 			case *ast.BinaryExpr, *ast.UnaryExpr:
-				if nc, ok := p.normalizeCmp(in, a, mentions); ok && nc.impliesNonNegative() {
+				var subj ast.Expr
+				nc, ok := p.normalizeCmp(in, a, func(e ast.Expr) bool {
+					if mentions(e) {
+						subj = e
+						return true
+					}
+					return false
+				})
+				if ok && nc.impliesNonNegative() {
 					return true
+				}
+				// `v != -1` where v is a local that only ever holds the constant −1 or a value that cannot be negative
+				if ok && nc.Op == token.NEQ && nc.C == -1 {
+					if id, isID := ast.Unparen(subj).(*ast.Ident); isID && p.localMinusOneOrNonNeg(in, p.ObjOf(in, id)) {
+						return true
+					}
 				}
 			}
 			return false
